@@ -85,6 +85,10 @@ func init() {
 					if strings.HasPrefix(untok(k), "has:m.ackHandlers[ack.SeqNo]") {
 						has = v
 					}
+					// a non-nil element of the pointer-valued table is a registered one
+					if untok(k) == "m.ackHandlers[ack.SeqNo]==nil" && v == "F" && has == "" {
+						has = "T"
+					}
 				}
 				if has != "T" {
 					return false, "callback reachable for an unknown sequence number"
@@ -103,6 +107,9 @@ func init() {
 				for k, v := range e.Cube {
 					if strings.HasPrefix(untok(k), "has:m.ackHandlers[nack.SeqNo]") && v == "T" {
 						return true, ""
+					}
+					if untok(k) == "m.ackHandlers[nack.SeqNo]==nil" && v == "F" {
+						return true, "" // a non-nil element of the pointer-valued table is a registered one
 					}
 				}
 				return false, "nack callback for an unknown sequence number"
